@@ -5,7 +5,7 @@ From Coq Require Import Sorted Permutation.
 From PG Require Import Lib.Str Model.TALES Proofs.TALESFacts Model.TALProg Model.TALProgSpec Proofs.TALProgFacts
                        Model.TALCompile Proofs.TALCompileFacts Model.TALESEval Proofs.TALESEvalFacts
                        Model.TALVM Model.TALOut Proofs.TALOutFacts Proofs.TALCompileWf Proofs.TALVMTerm
-                       Model.TALSpec Proofs.TALSpecFacts Model.TALSpecFull Proofs.TALSpecFullFacts.
+                       Model.TALSpec Proofs.TALSpecFacts Model.TALSpecFull Proofs.TALSpecFullFacts Model.TALDoc Proofs.TALDocFacts.
 Local Open Scope N_scope.
 
 (* ---- compiled programs are structurally well formed ----
@@ -230,21 +230,15 @@ Theorem C17_vm_terminates_compiled :
 Proof. exact TALVMTerm.terminates_compiled. Qed.
 Print Assumptions C17_vm_terminates_compiled.
 
-(* ---- compiler + interpreter against the specification ----
-   Full statement (C17_compiler_correct): for every element tree t and context c,
-     exists fuel, vm_run fuel (compile (events t)) c = Some (spec_eval t c)     (output text and final context).
-   Proved here only for the TAL/METAL-free fragment, where the specification of the expansion is the
-   serialisation of the event stream.  Missing for the rest: a Gallina model of the data side of the
-   interpreter (value universe, path traversal, the dynamic writers as a VM instance) and of the
-   tree-walking specification; the control and scope side is Model/TALVM.v (C18_context_restored), the
-   writers are Model/TALOut.v, the expression evaluator Model/TALESEval.v.  What stands in for the full
-   statement on every run is the differential oracle of harness/c17.py: real compiler + interpreter
-   against an independent tree-walking evaluator (harness/talref.py) on every generated template. *)
-Theorem C17_compiler_correct_partial :
+(* ---- compiler + interpreter against the specification: the TAL/METAL-free fragment ----
+   For every variant of the compiler (pinned ones included) and every event stream without TAL/METAL
+   attributes, the expansion is the serialisation of the event stream and the context is untouched.
+   (For templates WITH tal: statements see C17_compiler_correct at the end of this file.) *)
+Theorem C17_compiler_correct_tal_free :
   forall v es p t m c, forallb tal_free_event es = true -> compile v es = COk (p, (t, m)) ->
     exists mf, expand_static p t m 2 c = Done mf /\ dat str mf = passthrough_text v es /\ cx str mf = c.
 Proof. exact TALOutFacts.passthrough_expand. Qed.
-Print Assumptions C17_compiler_correct_partial.
+Print Assumptions C17_compiler_correct_tal_free.
 
 (* ---- beyond the TAL-free fragment, stage 1: condition, content | replace, attributes, omit-tag ----
    Model/TALSpec.v gives (1) the data side of the interpreter (output file, outputTag, original and
@@ -286,9 +280,9 @@ Print Assumptions C17_expand_spec_stage1_partial.
    context and initial environment: the expansion terminates, has written exactly what the
    specification writes, has left exactly the environment the specification leaves (the same
    operations in the same order), with data stack, scopes and scope stack restored.
-   `_partial`: METAL is not in the data instance / specification, and "parse_forest (compile
-   (events t)) is the tree t" is not proved (chk_compile, chk_spec and chk_spec_full compare the real
-   compiler and the real expansion — output AND number/order of Context operations — on every run). *)
+   `_partial`: METAL is not in the data instance / specification (macro expansion is compared with the
+   reference evaluator and followed by the abstract VM in Coq on every run, Corr/K17.chk_trace).  The link
+   from the SOURCE document to the forest f is C17_compiler_correct below. *)
 Theorem C17_expand_spec_partial :
   forall (val E : Type) (eval : E -> str -> list (str * str) -> val) (e_push e_pop : E -> E)
          (e_local e_global : E -> str -> val -> E) (e_add_repeat : E -> str -> val -> E)
@@ -309,3 +303,52 @@ Theorem C17_expand_spec_partial :
       pc (TALSpecFull.dstate val E) mf = List.length p.
 Proof. exact TALSpecFullFacts.expand_tal_spec. Qed.
 Print Assumptions C17_expand_spec_partial.
+
+(* ---- compiler correctness for TAL (all six statements, no METAL) ----
+   A template is a document tree (Model/TALDoc.v): character data, comments, declarations, processing
+   instructions and elements with their attributes as written and their children; doc_events is the event
+   stream of the well-nested document (start tag, children, end tag; one event for <x/> and for HTML's empty
+   elements); doc_forest is the tree the specification walks: markup without tal: statements is literal
+   text, an element with tal: statements carries its attributes and its statements parsed from the attribute
+   values, in TAL's order of operations — no program, no symbols, no jumps.
+   For EVERY document without metal: statements that the repaired compiler accepts, every environment type
+   and operations, every context and initial environment: compiling the event stream and running the
+   interpreter terminates, writes exactly what the tree-walking specification writes for the SOURCE tree,
+   leaves exactly the environment the specification leaves (same Context operations in the same order), and
+   restores data stack, scopes and scope stack.  (The compiler merges adjacent OUTPUT commands, so the
+   program reads back as the document's forest with adjacent literal chunks joined; the proof carries
+   "same specification" through the compilation.)
+   Tied to the real code on every run by Corr/K17: chk_compile (model compiler = real compiler on the real
+   parser's events), chk_doc (doc_events of the generator's tree = the real parser's events; spec_forest of
+   doc_forest = the real output and the real number of Context operations), chk_spec_full, chk_trace.
+   Not covered: metal: statements (hypothesis no_metal), xmlns re-declaration of the prefixes (the model
+   compiler answers Unsupported), documents that are not well nested (the compiler's implicit closing of
+   unclosed plain elements is in the model and in C17_wf_program, not in this theorem). *)
+Theorem C17_compiler_correct :
+  forall (val E : Type) (eval : E -> str -> list (str * str) -> val) (e_push e_pop : E -> E)
+         (e_local e_global : E -> str -> val -> E) (e_add_repeat : E -> str -> val -> E)
+         (e_next_repeat e_remove_repeat : E -> str -> E) (v_nothing v_default v_truth : val -> bool)
+         (v_text : val -> str) (v_len : val -> option nat)
+         (doc : list dnode) (p : program) (t : symtab) (m : macrotab),
+    forallb no_metal doc = true -> compile repaired (doc_events doc) = COk (p, (t, m)) ->
+    m = [] /\
+    forall (c : ctx) (env : E), exists fuel mf,
+      expand_tal val E eval e_push e_pop e_local e_global e_add_repeat e_next_repeat e_remove_repeat
+                 v_nothing v_default v_truth v_text v_len p t fuel c env = Done mf /\
+      TALSpecFull.d_out (dat (TALSpecFull.dstate val E) mf) =
+        fst (TALSpecFull.spec_forest val E eval e_push e_pop e_local e_global e_add_repeat e_next_repeat e_remove_repeat
+                                     v_nothing v_default v_truth v_text v_len env (doc_forest doc)) /\
+      TALSpecFull.d_env (dat (TALSpecFull.dstate val E) mf) =
+        snd (TALSpecFull.spec_forest val E eval e_push e_pop e_local e_global e_add_repeat e_next_repeat e_remove_repeat
+                                     v_nothing v_default v_truth v_text v_len env (doc_forest doc)) /\
+      TALSpecFull.d_stack (dat (TALSpecFull.dstate val E) mf) = [] /\
+      c_sc (cx (TALSpecFull.dstate val E) mf) = c_sc c /\ sstack (TALSpecFull.dstate val E) mf = [] /\
+      pc (TALSpecFull.dstate val E) mf = List.length p.
+Proof. exact TALDocFacts.compiler_correct. Qed.
+Print Assumptions C17_compiler_correct.
+
+(* non-vacuity: <ul tal:define="x s1"><li class="c" tal:content="i/k | default" tal:repeat="i l1">d</li><br>t<b>u</b></ul>
+   is accepted, has no METAL, and compiles to an 11-command program *)
+Example C17_compiler_correct_example :
+  forallb no_metal example_doc = true /\ exists p t, compile repaired (doc_events example_doc) = COk (p, (t, [])) /\ List.length p = 11%nat.
+Proof. exact TALDocFacts.compiler_correct_example_short. Qed.
